@@ -20,7 +20,9 @@
 (***************************************************************************)
 EXTENDS HandshakeActions, Json
 
-CONSTANTS Depth, OutDir, HONEST_PCT, FULL_PCT, MACRO_PCT, MUT_PCT
+CONSTANTS Depth, OutDir, HONEST_PCT, FULL_PCT, MACRO_PCT, MUT_PCT, OOO_PCT
+
+SE == INSTANCE SequencesExt
 
 VARIABLES S, sched, todo
 
@@ -40,8 +42,28 @@ StepMacrosOf(S0, c) ==
     { <<Blk(o, 1), Upd(c, h), m>> : m \in RelayActs(S0, c, S0.ch[o].cur, h, TRUE) }
 StepMacros(S0) == UNION { StepMacrosOf(S0, c) : c \in Chains }
 
-\* the same, with one field of the message wrong; the correct message follows
-MutMacros(S0) == UNION { { <<pl[1], pl[2], mu, pl[3]>> : mu \in Mutants(S0, pl[3]) } : pl \in StepMacros(S0) }
+\* the same, with one field of the message wrong; the correct message follows.  The message, then the field, then
+\* the wrong value are drawn one after the other (each draw bound once), so every FIELD is equally likely however
+\* large its alphabet is.
+AlphOther(S0, a, f) == Alph(S0, a.c, f) \ {a[f]}
+MutOf(S0, a) ==
+    UNION { { [a EXCEPT ![f] = v] : v \in { RandomElement(AlphOther(S0, a, f)) } } : f \in { RandomElement(MutFields(a)) } }
+\* up to three mutants of a message, in (up to) three different fields
+Mut3Of(S0, a) ==
+    UNION { { [a EXCEPT ![f] = v] : v \in { RandomElement(AlphOther(S0, a, f)) } }
+            : f \in { RandomElement(MutFields(a)), RandomElement(MutFields(a)), RandomElement(MutFields(a)) } }
+MutMacros(S0) ==
+    IF StepMacros(S0) = {} THEN {} ELSE
+    { <<pl[1], pl[2]>> \o SE!SetToSeq(Mut3Of(S0, pl[3])) \o <<pl[3]>> : pl \in { RandomElement(StepMacros(S0)) } }
+\* a single mutated message (with the proof heights the client holds, no fresh block)
+MutOneAct(S0) ==
+    IF MutBase(S0) = {} THEN {} ELSE UNION { MutOf(S0, a) : a \in { RandomElement(MutBase(S0)) } }
+
+\* steps out of order with a fresh proof: the right counterparty end, but the own end is in the wrong state
+\* (ack / confirm / close-confirm after the end was closed or already opened)
+LinkedMacros(S0) ==
+    UNION { LET o == Cp(c)  h == S0.ch[o].h + 1 IN
+            { <<Blk(o, 1), Upd(c, h), m>> : m \in LinkedActs(S0, c, S0.ch[o].cur, h) } : c \in Chains }
 
 MacroFor(S0, c, P(_)) ==
     LET cands == { pl \in StepMacrosOf(S0, c) : P(pl[3]) } IN
@@ -101,13 +123,14 @@ HonestClass(S0, cls, late) ==
       [] cls = "Relay"  -> HonestRelay(S0)
       [] cls = "Freeze" -> IF late THEN FreezeActs(S0) ELSE {}
 
-AdvWeights == <<"DupUpdate", "AnyHeight", "AnyHeight", "Loose", "Loose", "LooseLocal", "Mut", "Mut", "Mut", "Mut">>
+AdvWeights == <<"DupUpdate", "AnyHeight", "AnyHeight", "Loose", "Linked", "LooseLocal", "Mut", "Mut", "Mut", "Linked">>
 AdvClass(S0, cls) ==
     CASE cls = "DupUpdate"  -> UpdateActs(S0, TRUE)
       [] cls = "AnyHeight"  -> AnyHeightRelay(S0)
       [] cls = "Loose"      -> LooseRelay(S0)
+      [] cls = "Linked"     -> LinkedRelay(S0)
       [] cls = "LooseLocal" -> LooseLocal(S0)
-      [] cls = "Mut"        -> MutActs(S0)
+      [] cls = "Mut"        -> MutOneAct(S0)
 
 \* NOTE: every random draw is bound exactly once through a set binder (never through LET).
 Pick(S0) ==
@@ -141,6 +164,7 @@ PlanSet(S0, roll, k) ==
     IF roll <= FULL_PCT THEN { pl \in FullMacros(S0, k) \cup (IF CLOSE /\ k % 2 = 1 THEN CloseMacros(S0) ELSE {}) : pl # <<>> }
     ELSE IF roll <= FULL_PCT + MACRO_PCT THEN StepMacros(S0)
     ELSE IF roll <= FULL_PCT + MACRO_PCT + MUT_PCT THEN MutMacros(S0)
+    ELSE IF roll <= FULL_PCT + MACRO_PCT + MUT_PCT + OOO_PCT THEN LinkedMacros(S0)
     ELSE {}
 
 Next ==
